@@ -214,9 +214,12 @@ Fixpoint tour_admits (bt : ind -> ind -> bool) (gsize : nat) (inds out : list in
   match out with
   | [] => true
   | w :: out' =>
-      existsb (ind_eqb w) inds &&
-      (Nat.min gsize (length inds) - 1 <=? length (filter (fun x => negb (bt x w)) (remove_first w inds))) &&
-      tour_admits bt gsize (remove_first w inds) out'
+      match find (ind_eqb w) inds with
+      | None => false
+      | Some w' =>
+          (Nat.min gsize (length inds) - 1 <=? length (filter (fun x => negb (bt x w')) (remove_first w' inds))) &&
+          tour_admits bt gsize (remove_first w' inds) out'
+      end
   end.
 
 Fixpoint subseq_b (s l : list ind) : bool :=
